@@ -412,30 +412,45 @@ def flat_positions(case):
     return [[r, s, k] for r in range(case["nruns"]) for s in range(case["steps"]) for k in range(n)]
 
 
+def _names_model(text, g, name):
+    """does this text name the model group and the model?  (the wording of pyxel's note is not behaviour).
+    A dotted parameter key `pipeline.<group>.<model>.arguments.…` is not such a statement."""
+    return g in text and name in text and f"pipeline.{g}.{name}.arguments." not in text
+
+
+def _names_param(text, key, val):
+    """does this text give parameter `key` the value `val`?  (`…level` must not match `…level2`)"""
+    import re
+
+    for m in re.finditer(re.escape(key) + r"(?![A-Za-z0-9_])", text):
+        if repr(val) in text[m.end():].split("\n")[0]:
+            return True
+    return False
+
+
 def check_exc(case, err, need_type=True, need_params=False, where=""):
     """None or a description of how the raised exception misses the statement"""
     f = case["fault"]
     kind, msg, own = expected_exc(f)
     g, name, _ = schedule(case["groups"])[f["pos"]]
-    gnote = f"This error is raised in group '{g}' at model '{name}' ({FUNC})."
     if need_type:
         if err["kind"] != kind:
             return f"{where}exception class {err['kind']} instead of {kind}"
         if err["msg"] != msg:
             return f"{where}message {err['msg']!r} instead of {msg!r}"
-        if gnote not in err["notes"]:
-            return f"{where}group/model note missing: notes = {err['notes']}"
+        if not any(_names_model(n, g, name) for n in err["notes"]):
+            return f"{where}no note names group {g!r} and model {name!r}: notes = {err['notes']}"
     else:
         text = err["msg"] + "\n" + "\n".join(err["notes"])
         if msg not in text:
             return f"{where}original message {msg!r} does not reach the caller: {text[-300:]!r}"
-        if f"group '{g}' at model '{name}'" not in text:
+        if not _names_model(text, g, name):
             return f"{where}group/model of the failing model do not reach the caller"
     if need_params:
         k1, k2 = swept_keys(case)
         a, b = run_params(case)[f["run"]]
         for key, val in [(k1, a)] + ([(k2, b)] if case["levels2"] else []):
-            if not any(repr(key) in n and n.rstrip().endswith(repr(val)) for n in err["notes"]):
+            if not any(_names_param(n, key, val) for n in err["notes"]):
                 return f"{where}parameter {key} = {val!r} of the failing run is not in the notes: {err['notes']}"
     return None
 
@@ -496,9 +511,33 @@ def property_predicate(case, impl):
     return None
 
 
-def canon_err(err):
-    """fitness notes carry object addresses and the decision vector: keep their head only"""
-    return {"kind": err["kind"], "msg": err["msg"], "notes": [FIT_HEAD if n.startswith(FIT_HEAD) else n for n in err["notes"]]}
+def canon_err(err, case=None):
+    """what of an exception is behaviour: class, message, and WHAT the notes say — not how they word it.
+    Each note becomes a token: the model's own note verbatim, ("model", group, name) for a note naming a scheduled
+    model, ("param", key, value) for a note giving a swept parameter its value; any other note (headers, the
+    fitness note with its object address) is dropped.  Applied to the implementation's and to the model's notes alike."""
+    if case is None:
+        return {"kind": err["kind"], "msg": err["msg"], "notes": [FIT_HEAD if n.startswith(FIT_HEAD) else n for n in err["notes"]]}
+    own = expected_exc(case["fault"])[2] if case.get("fault") else []
+    sched = schedule(case["groups"])
+    keys = []
+    if case["mode"] in ("sequential", "parallel"):
+        k1, k2 = swept_keys(case)
+        vals1 = list(case["levels"])
+        keys = [(k1, vals1)] + ([(k2, list(case["levels2"]))] if case["levels2"] else [])
+    out = []
+    for n in err["notes"]:
+        if n in own:
+            out.append(["own", n])
+            continue
+        par = [[key, v] for key, vals in keys for v in vals if _names_param(n, key, v)]
+        if par:
+            out.append(["param"] + par[0])
+            continue
+        hit = [[g, name] for g, name, _ in sched if _names_model(n, g, name)]
+        if hit:
+            out.append(["model"] + hit[0])
+    return {"kind": err["kind"], "msg": err["msg"], "notes": out}
 
 
 def compare(case, impl, ans):
@@ -508,17 +547,17 @@ def compare(case, impl, ans):
             return f"trace differs: impl {impl['trace'][-3:]} ({len(impl['trace'])}) model {ans['trace'][-3:]} ({len(ans['trace'])})"
         if ("err" in impl["result"]) != ("err" in ans["result"]):
             return "one side raises, the other does not"
-        if "err" in ans["result"] and canon_err(impl["result"]["err"]) != ans["result"]["err"]:
-            return f"exception differs: impl {canon_err(impl['result']['err'])} model {ans['result']['err']}"
+        if "err" in ans["result"] and canon_err(impl["result"]["err"], case) != canon_err(ans["result"]["err"], case):
+            return f"exception differs: impl {canon_err(impl['result']['err'], case)} model {canon_err(ans['result']['err'], case)}"
         return None
     if mode == "parallel":
         if ("err" in impl["build"]) != ("err" in ans["build"]):
             return f"construction: impl {impl['build']} model {ans['build']}"
         if "err" in ans["build"]:
-            return None if canon_err(impl["build"]["err"]) == ans["build"]["err"] else f"construction exception differs: {impl['build']['err']} vs {ans['build']['err']}"
+            return None if canon_err(impl["build"]["err"], case) == canon_err(ans["build"]["err"], case) else f"construction exception differs: {impl['build']['err']} vs {ans['build']['err']}"
         if ("err" in impl["load"]) != ("err" in ans["load"]):
             return f"load: impl {impl['load']} model {ans['load']}"
-        if "err" in ans["load"] and canon_err(impl["load"]["err"]) != ans["load"]["err"]:
+        if "err" in ans["load"] and canon_err(impl["load"]["err"], case) != canon_err(ans["load"]["err"], case):
             return f"load exception differs: {impl['load']['err']} vs {ans['load']['err']}"
     return None
 
